@@ -61,3 +61,8 @@ package sys
 //@ lock-order core.LinearState.RWMutex < core.MemStorage.Mutex
 //@ lock-order core.IndexedState.RWMutex < core.Location.RWMutex
 //@ lock-order core.LinearState.RWMutex < core.Location.RWMutex
+
+// C17 (and C12): the cache entry is published BEFORE the location is loaded (under the cache lock), so that a second request
+// arriving during the load finds the entry and waits on its lock instead of loading a second instance
+//@ func (*CachedLocations).Open
+//@   assert[C17+C12.entry_published_before_the_load] at "cl.Get(ctx, sys, name, check)": (ttl != Never || ctl.CachePending) ==> has(cls.locs, name) && cls.locs[name] == cl
